@@ -516,9 +516,13 @@ def crop(
         return SemPredEvalResult(True)
 
     parser = mk_parser(tree.value)
-    result = DerivationTree.from_parse_tree(parser(unparsed[:width])[0]).get_subtree(
-        (0,)
-    )
+    try:
+        parse_tree = parser(unparsed[:width])[0]
+    except SyntaxError:
+        # The cropped text is not derivable from the nonterminal of `tree`.
+        return SemPredEvalResult(False)
+
+    result = DerivationTree.from_parse_tree(parse_tree).get_subtree((0,))
     return SemPredEvalResult({tree: result})
 
 
@@ -575,9 +579,13 @@ def just(
             else unparsed_output[len(unparsed_output) - width :]
         )
 
-    result = DerivationTree.from_parse_tree(parser(unparsed_output)[0]).get_subtree(
-        (0,)
-    )
+    try:
+        parse_tree = parser(unparsed_output)[0]
+    except SyntaxError:
+        # The justified text is not derivable from the nonterminal of `tree`.
+        return SemPredEvalResult(False)
+
+    result = DerivationTree.from_parse_tree(parse_tree).get_subtree((0,))
 
     return SemPredEvalResult({tree: result})
 
